@@ -106,7 +106,7 @@ typedef struct Sim {
 } Sim;
 
 extern Sim g_sim;
-extern __thread int t_task;       /* index of the task running in this thread, -1 = main */
+#define t_task (g_sim.cur)        /* index of the running task, -1 = main thread outside sim_run */
 extern FILE *g_out;               /* harness's own output (real stdout) */
 extern int g_capfd[2];            /* memfds standing in for fd 1 and fd 2 */
 
